@@ -188,7 +188,7 @@ pub fn main(args: &Args) {
     let mut out = Out::create(&path);
     let total = sessions.len();
     for sess in sessions {
-        let events = on_fresh_thread(move || run_session(&sess));
+        let events = run_session_watched(sess);
         for e in &events {
             out.emit(e);
         }
